@@ -10,6 +10,10 @@ CLAIMED = {
    text="Coq theorems over a faithful executable model of AckTracker/AckedRange: interval-set insert/erase/contains are characterised by membership and keep the canonical (sorted, disjoint, non-adjacent) form for all sets and ranges; the AckedRange loop covers exactly the serial range in at most two pieces for every pair of 32-bit sequence numbers (wrap included); seq_compare is regenerated from the source each run. The extracted model and the real AckTracker (driven through real TCP packets whose SACK option goes through the wire codec) run the same histories; a set-of-acknowledged-bytes oracle judges the C++ directly on conforming histories.",
    note="Trusted: Coq kernel, cxx2gallina + clang AST, extraction, harness/h_ack.cpp, boost::icl modelled as canonical interval lists (validated by correspondence only). The end-to-end statement 'tracker state = acknowledged-byte set for every conforming history' is decided by differential runs + the component theorems, not yet by a single refinement theorem.",
    tech="Coq proof (interval-set algebra, wrap-around range lemma) + generated kernel + model/code correspondence on receiver-simulated histories", ref="3/C19"),
+ 'C08': dict(
+   text="Coq theorems over a faithful executable model of IPv4Reassembler/IPv4Stream: for every datagram, every partition of its payload into non-empty fragments at multiples of 8, every arrival order with duplicates and every interleaving with other keys, the stream is declared complete iff all fragments arrived (tiling lemma), the completing fragment yields REASSEMBLED with exactly the original payload and the first fragment's header, all others FRAGMENTED, unfragmented packets are untouched and other keys' streams are not disturbed. The hand-written model is tied to the code by running the extracted model and the real reassembler (raw IPv4 packets parsed by libtins) on the same scripts; a reference reassembler judges the C++ directly.",
+   note="Trusted: Coq kernel, extraction, harness/h_ipr.cpp, the abstraction of the upper-layer parser as a predicate (UDP/raw/TCP-short exercised), std::vector/std::map behaviour as modelled. Overlapping fragments are outside the property and only compared model-vs-code.",
+   tech="Coq proof (invariant + tiling lemma, all partitions/orders) + model/code correspondence + reference-reassembler oracle", ref="3/C08"),
 }
 ALL = ['C%02d' % i for i in range(1, 20)]
 NA_REASON = "check not built yet in this session (machinery is being extended property by property; see DESIGN.md section 7)"
